@@ -168,6 +168,22 @@ func randFault(r *RNG, h *hist, kind string, npk, ntx int) (fault, attemptOpts) 
 		o.mapperMode = fmt.Sprintf("less@%d", r.Intn(len(h.tables)))
 	case "unsupported":
 		f.extra = mkEvent(byte(r.Pick(13, 5, 29)), r.Bytes(17), h.cfg[0] == '1')
+		if r.Chance(1, 2) {
+			// an event that passes the validity gate, has a type the parser handles, and a body too short to decode
+			// (ROTATE without its 8-byte position, QUERY / FORMAT_DESCRIPTION / TABLE_MAP / rows / XID stubs). Only
+			// candidates for which the model predicts a clean error are used: where the unchanged body parsers would
+			// panic the input is outside what C04 / C17 state (DESIGN §7 C17, "Reading").
+			cand := mkEvent(byte(r.Pick(4, 4, 4, 2, 15, 19, 30, 31, 32, 23, 16)), r.Bytes(r.Intn(12)), h.cfg[0] == '1')
+			at := f.at
+			if at < 2 {
+				at = 2
+			}
+			if ans, err := theDriver.Ask(h.line(posStr(firstFile, 4), fmt.Sprintf("inject=%d:%s", at, hx(cand)))); err == nil {
+				if m := fields(ans)["model"]; strings.HasPrefix(m, "err@") {
+					f.extra = cand
+				}
+			}
+		}
 	case "invalid":
 		f.extra = r.Bytes(r.Intn(40))
 	}
@@ -194,7 +210,7 @@ func init() {
 		o := histOpts{maxUnits: 6, maxStmts: 2, maxRows: 2, maxCols: 5, maxTables: 2, files: true, ignorable: true, allowTZ: false, casing: false}
 		for i := 0; i < n; i++ {
 			h := genHistory(r, o, allCfgs[i%len(allCfgs)])
-			ans, err := theDriver.Ask(h.line(posStr(firstFile, 4)))
+			ans, err := theDriver.Ask(h.line(posStr(h.startFile(), 4)))
 			if err != nil {
 				continue
 			}
@@ -208,7 +224,7 @@ func init() {
 				bset[b] = true
 			}
 			npk := len(splitPackets(f0["packets"]))
-			s, mp := newStreamer(m, h, 77, firstFile, 4)
+			s, mp := newStreamer(m, h, 77, h.startFile(), 4)
 			var accepted []string
 			var trace []string
 			attempts := r.Range(1, 3)
@@ -267,7 +283,7 @@ func init() {
 				ok, key = false, "exactly-once"
 				note = "after the clean attempt the handler had not accepted every committed transaction exactly once: " + strings.Join(trace, " ; ")
 			}
-			col.AddScenario("stream-fault-sequences", h.line(posStr(firstFile, 4))+" # attempts: "+strings.Join(trace, " ; "), true, ok, true, note, key, strings.Join(trace, " ; "), "")
+			col.AddScenario("stream-fault-sequences", h.line(posStr(h.startFile(), 4))+" # attempts: "+strings.Join(trace, " ; "), true, ok, true, note, key, strings.Join(trace, " ; "), "")
 		}
 	}
 
@@ -395,6 +411,32 @@ func extraC05(col *Collector, r *RNG, tier string) {
 			opts.script = scriptFor(h, hf)
 			pf = &hf
 			desc = "reader-holding-event:handler-slow-then-fails"
+		case 7: // a long backlog: the parser stops (handler error / cancel) while the master is >100 packets ahead
+			h = &hist{cfg: h.cfg, ext: map[string][]string{}, tables: h.tables}
+			ts := uint32(1600005000)
+			for u, nu := 0, r.Range(100, 180); u < nu; u++ {
+				ts++
+				h.units = append(h.units, hUnit{kind: "ddl", stmt: genStmt(r, "create", histOpts{}, ts)})
+			}
+			if ans, err = theDriver.Ask(h.line(posStr(firstFile, 4))); err != nil {
+				continue
+			}
+			f0 = fields(ans)
+			npk = len(splitPackets(f0["packets"]))
+			ntx = len(strings.Split(f0["spec"], "&"))
+			s, mp = newStreamer(m, h, 5, firstFile, 4)
+			opts = defaultOpts()
+			opts.handlerDelay = 3 * time.Millisecond
+			hf := fault{kind: "hold", at: npk + 1, pace: "ahead"}
+			opts.script = scriptFor(h, hf)
+			if r.Bool() {
+				opts.failAt = r.Intn(4)
+				desc = "long-backlog:handler-fails-early"
+			} else {
+				opts.cancelAfter = 1 + r.Intn(3)
+				desc = "long-backlog:cancel-early"
+			}
+			pf = nil
 		default:
 			kind := faultKinds[r.Intn(len(faultKinds))]
 			f, o2 := randFault(r, h, kind, npk, ntx)
